@@ -9,7 +9,7 @@ import (
 	"strings"
 )
 
-// ---- generic control-flow skeleton walker
+// ---- generic control-flow fingerSkeleton walker
 //
 // The walker visits a function body in source order and records, for every call whose
 // callee text is "interesting" (and for returns / selected assignments), the chain of
@@ -291,9 +291,9 @@ func walkSkeleton(fd *ast.FuncDecl, interesting func(string) bool) []skEntry {
 	return w.out
 }
 
-// skeleton: the interesting calls and the kept returns of a function, each with its
+// fingerSkeleton: the interesting calls and the kept returns of a function, each with its
 // guard chain, in source order.
-func skeleton(fd *ast.FuncDecl, interesting func(callee string) bool) [][2]string {
+func fingerSkeleton(fd *ast.FuncDecl, interesting func(callee string) bool) [][2]string {
 	var out [][2]string
 	for _, e := range walkSkeleton(fd, interesting) {
 		if e.kind == skCall || e.kind == skReturn || e.kind == skFunc {
